@@ -46,6 +46,19 @@ def run_program(prog, seed, sg=None, repeat_fixed=1):
             fn = getattr(nn.init, s["fn"])
             fn(t) if s["fn"] not in ("constant_",) else fn(t, 0.5)
             put_t(t, tag)
+        elif k == "init_all":
+            # every initialiser in every documented argument spelling on non-square tensors (fan_in != fan_out)
+            for shape in ([3, 5], [2, 3, 2]):
+                for fname in ("uniform_", "normal_", "xavier_uniform_", "xavier_normal_"):
+                    t = Tensor(np.zeros(shape, dtype=np.float32))
+                    getattr(nn.init, fname)(t)
+                    put_t(t, f"{tag}.{fname}{shape}")
+                for fname in ("kaiming_uniform_", "kaiming_normal_"):
+                    for mode in ("fan_in", "fan_out"):
+                        for nl in ("leaky_relu", "relu", "tanh", "selu"):
+                            t = Tensor(np.zeros(shape, dtype=np.float32))
+                            getattr(nn.init, fname)(t, a=s.get("a", 0), mode=mode, nonlinearity=nl)
+                            put_t(t, f"{tag}.{fname}{shape}{mode}{nl}")
         elif k == "layer":
             m = {"linear": lambda: nn.Linear(s["i"], s["o"]), "conv1d": lambda: nn.Conv1d(s["i"], s["o"], 3),
                  "conv2d": lambda: nn.Conv2d(s["i"], s["o"], (3, 2)),
